@@ -118,6 +118,15 @@ func scenarios(tier string) []scenario {
 				}
 				out = append(out, scenario{kind: "cstream", nReq: n, nResp: nr, outcome: oc, long: long})
 			}
+			if oc != "ok" {
+				// a single-response call whose handler sends its response and then
+				// fails: the response is on the wire, the failure takes precedence
+				// (dimension "which return carries the call's outcome", verdict.go)
+				out = append(out, scenario{kind: "cstream", nReq: 1, nResp: 1, outcome: oc, long: long})
+				if !long {
+					out = append(out, scenario{kind: "cstream", nReq: 1, nResp: 1, outcome: oc, respEmpty: 1})
+				}
+			}
 			for m := 0; m <= 3; m++ {
 				out = append(out, scenario{kind: "sstream", nReq: 1, nResp: m, outcome: oc, long: long})
 			}
@@ -265,6 +274,11 @@ func record(s scenario) (reqRec, respRec *recording, err error) {
 	wantResp := s.nResp
 	if s.kind == "unary" && s.outcome != "ok" {
 		wantResp = 0
+	}
+	if s.kind == "cstream" && s.outcome != "ok" && len(cliGot.DeliveredS) <= s.nResp {
+		// a response followed by a failure: whether the application may see the
+		// response is for the oracle to say (the replay of this body is a case)
+		wantResp = len(cliGot.DeliveredS)
 	}
 	if len(cliGot.DeliveredS) != wantResp || (s.outcome == "ok") != (cliGot.FinalEOF || cliGot.FinalErr == "<nil>") {
 		return nil, nil, fmt.Errorf("%s: genuine run delivered %d responses / final %q, want %d", s.name(), len(cliGot.DeliveredS), cliGot.FinalErr, wantResp)
